@@ -618,7 +618,7 @@ func init() {
 			if tier == "thorough" {
 				return 15000, 50 * time.Minute
 			}
-			return 600, 5 * time.Minute
+			return 2000, 5 * time.Minute
 		},
 		Gen: withSchedKnobs(genC12), Exec: withSample(genC12, execC12), Shrink: shrinkC12, DeathSig: w3DeathSig("C12"),
 	})
